@@ -269,6 +269,8 @@ impl<T> TimerThread<T> {
         // wake up the timer thread if it's a new queue
         if is_recal {
             if let Some(t) = self.wakeup.take() {
+                #[cfg(may_verif)]
+                crate::verif::note("timer.wakeup", 0, 0);
                 t.unpark();
             }
         }
@@ -280,6 +282,8 @@ impl<T> TimerThread<T> {
     pub fn del_timer(&self, handle: TimeoutHandle<T>) {
         self.remove_list.push(handle);
         if let Some(t) = self.wakeup.take() {
+            #[cfg(may_verif)]
+            crate::verif::note("timer.wakeup", 0, 0);
             t.unpark();
         }
     }
@@ -299,6 +303,8 @@ impl<T> TimerThread<T> {
 
             if !self.remove_list.is_empty() {
                 if let Some(t) = self.wakeup.take() {
+                    #[cfg(may_verif)]
+                    crate::verif::note("timer.wakeup", 0, 0);
                     t.unpark();
                 }
             }
